@@ -143,6 +143,9 @@ def rules(chk, db):
     encrules.read_rules(chk, db, want=('ENS', 'GRD', 'RST'))      # RST: no decode into storage that was never constructed
     encrules.narrowing(chk, db, 'NR.r', {'ReadPayload', 'Read'})
     termination(chk, db, 'TM')
+    # the capacity the logical-buffer guard (GRD) compares a wire count with is the element count of the array member
+    from .. import witness
+    witness.run(chk, 'c02_capacity.cpp', 'CAP', 'compile-time witnesses: LogicalBuffer<>::Length is the first extent of the array member (Length * sizeof(element) <= sizeof(array)) for 1-D / 2-D / 3-D C arrays and std::array', minimum=7)
     # a wrapper decoder stores each component through that component's own decoder and type: decoding an enum / error code as a
     # wider integer writes past the destination object
     chk.rule('CO', 'wrapper decoders are composed of exactly the documented component encodings (stored with the component\'s own type)', minimum=30)
